@@ -295,9 +295,11 @@ func (c *c01Gen) expr(t c01Type, depth int) string {
 			n := g.Int(1, 3)
 			parts := make([]string, n)
 			for i := range parts {
-				// string members: numerically equal members of different types (1, 1.0, True) are the
-				// open C17 finding set-mixed-numeric-keys, which is not what this property is about
-				parts[i] = c.expr(tStr, depth-1)
+				if g.Bool() {
+					parts[i] = c.expr(tInt, depth-1)
+				} else {
+					parts[i] = c.expr(tStr, depth-1)
+				}
 			}
 			return "{" + strings.Join(parts, ", ") + "}"
 		case 6:
@@ -413,7 +415,7 @@ func (c *c01Gen) stmt(depth int) (string, string) {
 		// reflected operation of the right operand decides (values chosen so that every result is exact)
 		c.use("aug-mixed-types")
 		op := g.Str("+=", "-=", "*=", "/=", "//=", "%=", "**=")
-		lhs := g.Str("4", "9", "7", "16", "2.5") // no bool on the left: bool op bool is the open C07 finding bool-arithmetic
+		lhs := g.Str("4", "9", "7", "16", "2.5", "True")
 		rhs := g.Str("0.5", "2.0", "True", "2", "4.0")
 		target := "a"
 		pre := fmt.Sprintf("a = v(%d, %s)\n", c.k(), lhs)
